@@ -32,12 +32,26 @@ class _Return(Exception):
         self.value = value
 
 
+class _Break(Exception):
+    pass
+
+
+class _Continue(Exception):
+    pass
+
+
 class Rec:
     """Abstract instance: stored fields by name."""
 
     def __init__(self, cls, **fields):
         self.cls = cls
         self.fields = dict(fields)
+
+    def shallow(self):
+        """attrs.evolve / copy.copy semantics: a new instance sharing the field values."""
+        r = Rec(self.cls)
+        r.fields = dict(self.fields)
+        return r
 
     def clone(self):
         r = Rec(self.cls)
@@ -73,6 +87,13 @@ class _Expr(SymEval):
         def numeric(v):
             return (isinstance(v, (int, float, np.integer, np.floating)) and not isinstance(v, bool)) or (isinstance(v, np.ndarray) and v.dtype != object)
 
+        if isinstance(a, str) and isinstance(b, str) and isinstance(n.op, ast.Add):
+            return a + b
+        if isinstance(a, str) and isinstance(n.op, ast.Mod):
+            try:
+                return a % b
+            except Exception as exc:
+                raise NotSymbolic(f"string formatting failed: {exc}") from exc
         if numeric(a) and numeric(b):
             import operator
 
@@ -84,6 +105,66 @@ class _Expr(SymEval):
         # mixed / symbolic: delegate with the already evaluated operands
         sub = SymEval({"__a": a, "__b": b}, None, self.np_names)
         return sub.eval(ast.BinOp(left=ast.Name(id="__a", ctx=ast.Load()), op=n.op, right=ast.Name(id="__b", ctx=ast.Load())))
+
+    def e_Dict(self, n):
+        out = {}
+        for k, v in zip(n.keys, n.values):
+            if k is None:
+                out.update(self.eval(v))
+            else:
+                out[self.eval(k)] = self.eval(v)
+        return out
+
+    def e_DictComp(self, n):
+        if len(n.generators) != 1:
+            raise NotSymbolic("nested comprehension")
+        g = n.generators[0]
+        out = {}
+        for item in list(self.eval(g.iter)):
+            sub = _Expr(self.env, self.owner)
+            sub._bind(g.target, item)
+            if all(self._truth(sub.eval(c)) for c in g.ifs):
+                out[sub.eval(n.key)] = sub.eval(n.value)
+        return out
+
+    def e_ListComp(self, n):
+        if len(n.generators) != 1:
+            raise NotSymbolic("nested comprehension")
+        g = n.generators[0]
+        out = []
+        for item in list(self.eval(g.iter)):
+            sub = _Expr(self.env, self.owner)
+            sub._bind(g.target, item)
+            if all(self._truth(sub.eval(c)) for c in g.ifs):
+                out.append(sub.eval(n.elt))
+        return out
+
+    def e_GeneratorExp(self, n):
+        return self.e_ListComp(ast.ListComp(elt=n.elt, generators=n.generators))
+
+    def e_JoinedStr(self, n):
+        parts = []
+        for v in n.values:
+            if isinstance(v, ast.Constant):
+                parts.append(str(v.value))
+            else:
+                val = self.eval(v.value)
+                if isinstance(val, (Sym, np.ndarray, Rec)):
+                    raise NotSymbolic("formatting of a symbolic value")
+                spec = "".join(str(x.value) for x in v.format_spec.values if isinstance(x, ast.Constant)) if v.format_spec is not None else ""
+                parts.append(format(val, spec))
+        return "".join(parts)
+
+    def e_Subscript(self, n):
+        base = self.eval(n.value)
+        if isinstance(base, dict):
+            key = self.eval(n.slice)
+            if key not in base:
+                raise Raised("KeyError")
+            return base[key]
+        if isinstance(base, str):
+            return base[self._index(n.slice)]
+        return super().e_Subscript(n)
 
     def e_Compare(self, n):
         left = self.eval(n.left)
@@ -168,14 +249,22 @@ class _Expr(SymEval):
                 return np.concatenate(seq, **{k: v for k, v in kw.items() if k == "axis"})
             if f.attr == "zeros" and args:
                 return np.zeros(args[0])
+            PURE_NUMERIC = ("argsort", "sort", "unique", "arange", "cumsum", "where", "sum", "max", "min", "amax", "amin", "abs", "absolute", "sqrt", "prod", "any", "all", "nonzero", "argmax", "argmin", "diff", "lexsort", "searchsorted", "count_nonzero", "sign", "floor", "ceil")
+            if f.attr in PURE_NUMERIC and args and all(not isinstance(a, (Sym, Rec)) and not (isinstance(a, np.ndarray) and a.dtype == object) and not (isinstance(a, (list, tuple)) and any(isinstance(x, (Sym, Rec)) for x in a)) for a in args):
+                return getattr(np, f.attr)(*args, **kw)
             if f.attr in ("repeat", "tile") and args:
                 a0 = np.asarray(args[0], dtype=object) if not isinstance(args[0], np.ndarray) else args[0]
                 return getattr(np, f.attr)(a0, *args[1:], **kw)
             return super().e_Call(n)
+        if isinstance(f, ast.Attribute) and isinstance(f.value, ast.Name) and f.value.id not in self.env and (f.value.id, f.attr) in (("attrs", "asdict"), ("attr", "asdict")):
+            a0 = self.eval(n.args[0])
+            if isinstance(a0, Rec):
+                return dict(a0.fields)
+            raise NotSymbolic("asdict of a non-instance")
         if isinstance(f, ast.Attribute) and isinstance(f.value, ast.Name) and f.value.id not in self.env and (f.value.id, f.attr) in (("attrs", "evolve"), ("attr", "evolve"), ("copy", "copy"), ("copy", "deepcopy")):
             args = [self.eval(a) for a in n.args]
             if args and isinstance(args[0], Rec):
-                new = args[0].clone()
+                new = args[0].clone() if f.attr == "deepcopy" else args[0].shallow()
                 for k in n.keywords:
                     new.fields[k.arg] = self.eval(k.value)
                 return new
@@ -212,12 +301,29 @@ class _Expr(SymEval):
                     return base.clip(*args, **kw)
             if isinstance(base, Rec):
                 return self.owner.call_method(base, f.attr, [self.eval(a) for a in n.args], {k.arg: self.eval(k.value) for k in n.keywords})
+            if isinstance(base, str) and f.attr in ("lower", "upper", "strip", "title", "capitalize", "startswith", "endswith", "replace", "split", "join", "rstrip", "lstrip"):
+                return getattr(base, f.attr)(*[self.eval(a) for a in n.args])
+            if isinstance(base, list) and f.attr in ("append", "extend", "index", "count", "copy", "insert", "pop"):
+                return getattr(base, f.attr)(*[self.eval(a) for a in n.args])
+            if isinstance(base, dict) and f.attr in ("update", "get", "items", "keys", "values", "setdefault", "pop", "copy"):
+                args = [self.eval(a) for a in n.args]
+                kw = {k.arg: self.eval(k.value) for k in n.keywords if k.arg is not None}
+                res = getattr(base, f.attr)(*args, **kw)
+                return list(res) if f.attr in ("items", "keys", "values") else res
         if isinstance(f, ast.Name) and f.id not in self.env:
             r = self.owner.prog.lookup(None, getattr(self.owner, "module", None) or self.owner.cls.module, f.id)
             if r is not None and r[0] == "func":
                 g = r[1]
                 args = [self.eval(a) for a in n.args]
-                kw = {k.arg: self.eval(k.value) for k in n.keywords}
+                kw = {}
+                for k in n.keywords:
+                    if k.arg is None:
+                        kw.update(self.eval(k.value))
+                    else:
+                        kw[k.arg] = self.eval(k.value)
+                stub = getattr(self.owner, "stubs", {}).get(g.qualname)
+                if stub is not None:
+                    return stub(args, kw)
                 return self.owner.run_free(g, args, kw)
             if r is not None and r[0] == "class":
                 ci = r[1]
@@ -239,6 +345,25 @@ class _Expr(SymEval):
                         return Sym.const(abs(c))
                     return _opaque("abs", v)
                 return abs(v)
+            if f.id in ("zip", "enumerate", "range", "all", "any", "reversed") and not n.keywords:
+                args = [self.eval(a) for a in n.args]
+                rows = lambda a: [a[i] for i in range(a.shape[0])] if isinstance(a, np.ndarray) else list(a)
+                if f.id == "zip":
+                    return [tuple(t) for t in zip(*[rows(a) for a in args])]
+                if f.id == "enumerate":
+                    return [(i, x) for i, x in enumerate(rows(args[0]), *(args[1:]))]
+                if f.id == "range":
+                    return list(range(*args))
+                if f.id == "reversed":
+                    return list(reversed(rows(args[0])))
+                vals = [self._truth(x) for x in rows(args[0])]
+                return all(vals) if f.id == "all" else any(vals)
+            if f.id in ("round", "min", "max", "sum", "str", "sorted", "list", "tuple", "dict") and n.args and not n.keywords:
+                args = [self.eval(a) for a in n.args]
+                if all(not isinstance(a, (Sym, Rec)) and not (isinstance(a, np.ndarray) and a.dtype == object) for a in args):
+                    import builtins
+
+                    return getattr(builtins, f.id)(*args)
             if f.id == "bool" and len(n.args) == 1:
                 return self._truth(self.eval(n.args[0]))
             if f.id in ("int", "float") and n.args:
@@ -255,6 +380,18 @@ class _Expr(SymEval):
     def e_Name(self, n):
         if n.id in ("int", "float", "None", "True", "False"):
             return {"int": int, "float": float, "None": None, "True": True, "False": False}[n.id]
+        if n.id not in self.env:
+            mod = getattr(self.owner, "module", None) or self.owner.cls.module
+            r = self.owner.prog.lookup(None, mod, n.id)
+            if r is not None and r[0] == "func":
+                return ("<function>", r[1])
+            if r is not None and r[0] == "global":
+                from .consteval import ConstEval, NotConstant
+
+                try:
+                    return ConstEval(self.owner.prog).global_value(r[1], r[2])
+                except NotConstant as exc:
+                    raise NotSymbolic(f"module constant {n.id}: {exc}") from exc
         return super().e_Name(n)
 
 
@@ -270,22 +407,22 @@ class AccessorEval:
     def get(self, rec: Rec, name):
         if name in rec.fields:
             return rec.fields[name]
-        g = self.cls.getters.get(name)
+        g = (rec.cls or self.cls).getters.get(name)
         if g is not None:
             return self.run(g, rec, {})
-        raise NotSymbolic(f"{self.cls.name} has no field or property {name}")
+        raise NotSymbolic(f"{(rec.cls or self.cls).name} has no field or property {name}")
 
     def set(self, rec: Rec, name, value):
-        s = self.cls.setters.get(name)
+        s = (rec.cls or self.cls).setters.get(name)
         if s is not None:
             self.run(s, rec, {s.posparams[1]: value})
             return
-        if name in self.cls.getters:
+        if name in (rec.cls or self.cls).getters:
             raise Raised("AttributeError")
         rec.fields[name] = value
 
     def call_method(self, rec, name, args, kwargs):
-        m = self.cls.methods.get(name)
+        m = (rec.cls or self.cls).methods.get(name)
         if m is None:
             raise NotSymbolic(f"method {name}")
         env = dict(zip(m.posparams[1:], args))
@@ -313,13 +450,24 @@ class AccessorEval:
         if self.depth > 8:
             raise NotSymbolic("helper recursion")
         local = dict(zip(func.posparams, args))
-        local.update(kwargs)
-        for p_ in func.posparams:
+        extra_kw = {}
+        for k, v in kwargs.items():
+            if k in func.params:
+                local[k] = v
+            elif func.kwarg:
+                extra_kw[k] = v
+            else:
+                raise Raised("TypeError")
+        if func.kwarg:
+            local[func.kwarg] = extra_kw
+        for p_ in func.posparams + func.kwonly:
             if p_ not in local:
                 d = func.default_of(p_)
                 if d is None:
                     raise NotSymbolic(f"missing argument {p_}")
                 local[p_] = self._eval(d, {})
+        saved_mod = getattr(self, "module", None)
+        self.module = func.module
         try:
             self._block(func.body, local)
             return None
@@ -327,6 +475,7 @@ class AccessorEval:
             return r.value
         finally:
             self.depth -= 1
+            self.module = saved_mod
 
     def _block(self, stmts, local):
         for st in stmts:
@@ -369,11 +518,38 @@ class AccessorEval:
             return
         if isinstance(st, ast.Pass):
             return
+        if isinstance(st, ast.For):
+            seq = self._eval(st.iter, local)
+            items = list(seq) if not isinstance(seq, np.ndarray) else [seq[i] for i in range(seq.shape[0])]
+            broke = False
+            for item in items:
+                self._assign(st.target, item, local)
+                try:
+                    self._block(st.body, local)
+                except _Break:
+                    broke = True
+                    break
+                except _Continue:
+                    continue
+            if not broke:
+                self._block(st.orelse, local)
+            return
+        if isinstance(st, ast.Break):
+            raise _Break()
+        if isinstance(st, ast.Continue):
+            raise _Continue()
         raise NotSymbolic(f"statement kind {type(st).__name__}")
 
     def _assign(self, t, val, local):
         if isinstance(t, ast.Name):
             local[t.id] = val
+            return
+        if isinstance(t, (ast.Tuple, ast.List)):
+            vals = list(val) if not isinstance(val, np.ndarray) else [val[i] for i in range(val.shape[0])]
+            if len(vals) != len(t.elts):
+                raise Raised("ValueError")
+            for tt, vv in zip(t.elts, vals):
+                self._assign(tt, vv, local)
             return
         if isinstance(t, ast.Attribute):
             # flags.writeable = False on a derived array: no effect on values
@@ -392,6 +568,12 @@ class AccessorEval:
                 if isinstance(v, (list, tuple)):
                     v = np.array(v, dtype=base.dtype)
                 base[idx] = v
+                return
+            if isinstance(base, dict):
+                base[_Expr(local, self).eval(t.slice)] = val
+                return
+            if isinstance(base, list):
+                base[_Expr(local, self)._index(t.slice)] = val
                 return
             raise NotSymbolic("subscript store on a non-array")
         raise NotSymbolic("assignment target")
